@@ -508,12 +508,12 @@ func (ir *ifdReader) parseGPSDateStamp(t Tag) time.Time {
 			return time.Time{}
 		}
 		// check recieved value
-		if buf[4] == ':' && buf[7] == ':' && len(buf) < 12 {
+		if len(buf) >= 10 && buf[4] == ':' && buf[7] == ':' && len(buf) < 12 {
 			return time.Date(int(parseStrUint(buf[0:4])), time.Month(parseStrUint(buf[5:7])), int(parseStrUint(buf[8:10])), 0, 0, 0, 0, time.UTC)
 		}
 		// check recieved value
-		if buf[4] == ':' && buf[7] == ':' && buf[10] == ' ' &&
-			buf[13] == ':' && buf[16] == ':' && len(buf) > 19 {
+		if len(buf) > 19 && buf[4] == ':' && buf[7] == ':' && buf[10] == ' ' &&
+			buf[13] == ':' && buf[16] == ':' {
 			return time.Date(
 				int(parseStrUint(buf[0:4])),
 				time.Month(parseStrUint(buf[5:7])),
